@@ -62,6 +62,7 @@ type World struct {
 	Dids  []*DidActor // did:key actor of account i
 	Mods  map[string]string
 	keyReg map[string][3]int
+	sidTs  map[int]uint64
 }
 
 // RegKey registers the model alias key string of (owner, alias, group) so that the dump can
